@@ -13,7 +13,16 @@
    the files; no directory staging / directory index entries on a sha256 store (legacy
    external-output path, DESIGN section 6 "not covered").
 
-   Deviation from DESIGN: none in the statements.  The digest hypotheses are (1) a digest never
+   Leftovers.  A store directory can be reopened under the other class (OReopen).  What sits
+   unprotected in it when it is opened under the local class (it was filled through the generic
+   class) is a leftover: allowed to stay unprotected until an operation adds or covers it.
+     InvE H E st := names as in Inv, and  s_cls s = Local -> o_mode o = 0o444 \/ E j k
+     leftover_after st o E := E + (unprotected ids of store si)   for o = OReopen si Local
+                              E - {(si, k)}                       for o = OAdd si _ k
+                              E                                   otherwise (no operation adds a leftover)
+   Inv = InvE with no leftovers; histories that never reopen under the local class keep Inv.
+
+   Deviation from DESIGN: OReopen and the leftover form of the invariant are additions.  The digest hypotheses are (1) a digest never
    ends in ".dir", (2) md5-dos2unix and md5 agree on canonical listings; both are proved for
    the executable digest (C01_digest_ok), so the ..._exec theorems carry no hypothesis on H.
    The state-cache clause of WfOp ("C13's invariant") does not appear because the model hashes
@@ -31,27 +40,50 @@ Theorem C01_init : forall H cfg, Inv H (init_state cfg).
 Proof. exact C01_init. Qed.
 Print Assumptions C01_init.
 
+(* one step; the operation does not reopen a directory under the local class *)
 Theorem C01_step : forall H, DigestOk H -> forall st o,
-  Inv H st -> WfOp H st o -> Inv H (step H st o).
+  Inv H st -> WfOp H st o -> keeps_class o -> Inv H (step H st o).
 Proof. intros H [H1 H2]. exact (C01_step H H1 H2). Qed.
 Print Assumptions C01_step.
 
+(* one step of any kind, with leftovers *)
+Theorem C01_step_leftover : forall H, DigestOk H -> forall E st o,
+  InvE H E st -> WfOp H st o -> InvE H (leftover_after st o E) (step H st o).
+Proof. intros H [H1 H2]. exact (C01_step_leftover H H1 H2). Qed.
+Print Assumptions C01_step_leftover.
+
+(* add protects every oid it is asked for, copied or already present (also a leftover) *)
+Theorem C01_add_covers : forall H, DigestOk H -> forall E st si b k s o,
+  InvE H E st -> WfOp H st (OAdd si b k) ->
+  nth_error (st_stores (step H st (OAdd si b k))) si = Some s -> s_cls s = Local ->
+  alookup k (s_objs s) = Some o -> o_mode o = mode_ro.
+Proof. intros H [H1 H2]. exact (C01_add_covers H H1 H2). Qed.
+Print Assumptions C01_add_covers.
+
 (* unbounded: any finite history, and the invariant holds after every step (every prefix) *)
 Theorem C01_history : forall H, DigestOk H -> forall cfg ops n,
-  WfHist H (init_state cfg) ops ->
+  WfHist H (init_state cfg) ops -> KeepsClass ops ->
   Inv H (fold_left (step H) (firstn n ops) (init_state cfg)).
 Proof. intros H [H1 H2]. exact (C01_history H H1 H2). Qed.
 Print Assumptions C01_history.
 
+(* any history, reopening included: the invariant up to the leftovers accumulated so far *)
+Theorem C01_history_leftover : forall H, DigestOk H -> forall cfg ops n,
+  WfHist H (init_state cfg) ops ->
+  InvE H (leftover_hist H (init_state cfg) (firstn n ops) lempty)
+       (fold_left (step H) (firstn n ops) (init_state cfg)).
+Proof. intros H [H1 H2]. exact (C01_history_leftover H H1 H2). Qed.
+Print Assumptions C01_history_leftover.
+
 (* from any state satisfying the invariant (e.g. a store that already holds objects) *)
 Theorem C01_history_from : forall H, DigestOk H -> forall st ops,
-  Inv H st -> WfHist H st ops -> Inv H (fold_left (step H) ops st).
+  Inv H st -> WfHist H st ops -> KeepsClass ops -> Inv H (fold_left (step H) ops st).
 Proof. intros H [H1 H2]. exact (C01_history_from H H1 H2). Qed.
 Print Assumptions C01_history_from.
 
 (* no operation changes the algorithm of a store (the name rule of a store is fixed) *)
-Theorem C01_alg_fixed : forall H, DigestOk H -> forall st o j,
-  Inv H st -> WfOp H st o -> alg_at (step H st o) j = alg_at st j.
+Theorem C01_alg_fixed : forall H, DigestOk H -> forall E st o j,
+  InvE H E st -> WfOp H st o -> alg_at (step H st o) j = alg_at st j.
 Proof. intros H [H1 H2]. exact (C01_step_alg H H1 H2). Qed.
 Print Assumptions C01_alg_fixed.
 
@@ -61,19 +93,27 @@ Proof. split; [exact H_exec_not_dir|exact H_exec_d2u_listing]. Qed.
 Print Assumptions C01_digest_ok.
 
 Theorem C01_history_exec : forall cfg ops n,
-  WfHist H_exec (init_state cfg) ops ->
+  WfHist H_exec (init_state cfg) ops -> KeepsClass ops ->
   Inv H_exec (fold_left (step H_exec) (firstn n ops) (init_state cfg)).
 Proof. exact C01_history_exec. Qed.
 Print Assumptions C01_history_exec.
 
-(* with the decidable side condition that the correspondence run evaluates (inside Coq) on every
-   generated history: whenever that boolean is true - it is reported per step - every prefix of
-   the model run satisfies the invariant, and the run is compared byte for byte with the real stores *)
+(* with the decidable side conditions that the correspondence run evaluates (inside Coq) on every
+   generated history: whenever the WfOp boolean is true - it is reported per step - every prefix of
+   the model run satisfies the invariant (up to leftovers when directories are reopened), and the
+   run is compared byte for byte with the real stores *)
 Theorem C01_history_checked_exec : forall cfg ops n,
-  wf_hist_b H_exec (init_state cfg) ops = true ->
+  wf_hist_b H_exec (init_state cfg) ops = true -> forallb keeps_class_b ops = true ->
   Inv H_exec (fold_left (step H_exec) (firstn n ops) (init_state cfg)).
 Proof. exact C01_history_checked_exec. Qed.
 Print Assumptions C01_history_checked_exec.
+
+Theorem C01_history_leftover_checked_exec : forall cfg ops n,
+  wf_hist_b H_exec (init_state cfg) ops = true ->
+  InvE H_exec (leftover_hist H_exec (init_state cfg) (firstn n ops) lempty)
+       (fold_left (step H_exec) (firstn n ops) (init_state cfg)).
+Proof. exact C01_history_leftover_checked_exec. Qed.
+Print Assumptions C01_history_leftover_checked_exec.
 
 (* the restriction WfOp cannot simply be dropped: without it the (faithful) model leaves the
    invariant - witness: staging a directory into a sha256 store, the legacy external-output path,
